@@ -37,6 +37,8 @@ pub enum Op {
     Restart,
     /// the most recent invoice / keysend presented again, unchanged
     Retry,
+    /// Node::update_velocity_controls with the policy unchanged (runtime policy reload hook)
+    Reload,
 }
 
 #[derive(Clone, Default, Debug, Serialize)]
@@ -139,6 +141,7 @@ impl Model for VelModel {
             Op::Advance(WINDOW),
             Op::Advance(WINDOW + BUCKET),
             Op::Restart,
+            Op::Reload,
         ]
         .into_iter()
         .chain(if s.ghost.last.is_some() { Some(Op::Retry) } else { None })
@@ -170,6 +173,7 @@ impl Model for VelModel {
             },
             Op::Onchain(..) => "check_onchain_tx",
             Op::Advance(..) => "advance",
+            Op::Reload => "update_velocity_controls",
             Op::Restart => "restart",
         };
         match op {
@@ -186,6 +190,14 @@ impl Model for VelModel {
             }
             Op::Advance(dt) => {
                 s.w().clock.set(Duration::from_secs(now + dt));
+            }
+            Op::Reload => {
+                let node = s.w().node.clone();
+                let r = call(move || {
+                    node.update_velocity_controls();
+                    Ok::<(), String>(())
+                });
+                tag = r.tag();
             }
             Op::Keysend(..) | Op::Invoice(..) | Op::Retry => {
                 let node = s.w().node.clone();
